@@ -189,9 +189,9 @@ Proof.
   destruct H as [H|H]; apply String.eqb_eq in H; auto.
 Qed.
 
-Theorem sc_is_zero_or_the_next_column : forall k l x, In (k, l) sc_assignments -> In x l -> x = "0"%string \/ x = "ci + 1"%string.
+Theorem sc_is_zero_or_the_next_column : forall k l x, In (k, l) sc_assignments -> In x l -> x = "0"%string \/ x = "ci+1"%string.
 Proof.
-  assert (H : forallb (fun kl => forallb (fun x => String.eqb x "0" || String.eqb x "ci + 1") (snd kl)) sc_assignments = true)
+  assert (H : forallb (fun kl => forallb (fun x => String.eqb x "0" || String.eqb x "ci+1") (snd kl)) sc_assignments = true)
     by (vm_compute; reflexivity).
   intros k l x Hk Hx. rewrite forallb_forall in H. specialize (H (k, l) Hk). cbn [snd] in H.
   rewrite forallb_forall in H. specialize (H x Hx). apply orb_true_iff in H.
